@@ -112,7 +112,9 @@ def canon(seg):
         vals = [seg.get_value('ISA%02d' % i) for i in range(1, 17)]
         vals[10] = vals[15] = '#'
         return 'ISA|' + '|'.join(v if v is not None else '' for v in vals)
-    return seg.format('~', '*', ':')
+    # structure-preserving: written with separators no data and no delimiter set uses, so that a composite and a simple value that merely
+    # CONTAINS a separator character of another delimiter set never look alike
+    return seg.format('\x01', '\x02', '\x03')
 
 
 def run_writer(tid, hist, setting, segs=None, src=DEFAULT_SRC):
